@@ -154,8 +154,12 @@ theorem apply_chans (s : St) (a : Act) : ChansStep s.chans (apply s a).chans := 
   | drvRole => exact Or.inl rfl
   | drvStart =>
     simp only [apply]; split
-    · exact Or.inl rfl
-    · exact abortLoops_chans' s _ (by simp)
+    · split
+      · exact Or.inl rfl
+      · left; simp
+    · split
+      · exact Or.inl rfl
+      · exact abortLoops_chans' s _ (by simp)
   | drvLoops =>
     simp only [apply]
     have h1 : ChansStep s.chans (abortLoops (propagate s)).chans := abortLoops_chans' s _ (by simp)
@@ -202,8 +206,12 @@ theorem apply_reason_keeps (s : St) (a : Act) (r : Reason) (h : s.reason = some 
   | drvRole => simp [apply, h]
   | drvStart =>
     simp only [apply]; split
-    · exact h
-    · simp [setReasonIfNone, h]
+    · split
+      · exact h
+      · simp [setReasonIfNone, h]
+    · split
+      · exact h
+      · simp [setReasonIfNone, h]
   | drvLoops =>
     simp only [apply]
     have h1 : (abortLoops (propagate s)).reason = some r := by simp [propagate_keeps s r h]
